@@ -599,6 +599,74 @@ def replay_yaml_positions(a):
     return {"reproduced": bool(out), "mismatches": out[:5], "document": text}
 
 
+def loader_stops_at_stream_end(a):
+    """C08: Loader::load pulls events until a document is complete. libyaml answers a parse request made AFTER the stream-end event with
+    YAML_NO_EVENT, which convert_event does not handle (`_ => unimplemented!()`): so once StreamEnd has been seen, load must not ask for
+    another event - it has to return (an input with no document at all - only comments, white space, a byte order mark - ends this way).
+    The kind of every event is symbolic; two loop iterations."""
+    EV = enum_variants(a.src, "rules/libyaml/event.rs", "Event")
+
+    def m_next(ex, av):
+        ev = ex.opq()
+        ex.side.append(f"(and (<= 0 {disc(ex, ev)}) (< {disc(ex, ev)} {len(EV)}))")
+        return ex.fresh_result(("tuple", [ev, ex.opq()]), "nx")
+    ex = a.exec(LOADER + "load", {"next": m_next, "new": lambda ex, av: ex.opq(), "handle_mapping_start": lambda ex, av: ("unit",),
+                                  "handle_mapping_end": mirexec.m_result_unit, "handle_sequence_start": lambda ex, av: ("unit",),
+                                  "handle_sequence_end": lambda ex, av: ("unit",), "handle_scalar_event": lambda ex, av: ("unit",),
+                                  "pop": mirexec.m_option, "push": lambda ex, av: ("unit",), "clear": lambda ex, av: ("unit",),
+                                  "unwrap": lambda ex, av: (av[0][3].get("Some") if av and av[0][0] == "enum" and av[0][3].get("Some") else ex.opq()),
+                                  "as_bytes": mirexec.m_identity},
+                unroll=2, max_paths=20000, deepen=False)
+    a.fns.append("rules::libyaml::loader::Loader::load")
+    SE = EV.index("StreamEnd")
+    bad, nnext = [], 0
+    for p in ex.paths:
+        nx = calls(p, "next")
+        nnext += len(nx)
+        for k, e in enumerate(nx[:-1]):
+            if e[3][0] != "enum":
+                continue
+            ev = e[3][3]["Ok"][1][0]
+            # a later request exists on this path: the event delivered by this one must not have been the stream end
+            bad.append(f"(and {pc_term(p.pc)} (= {e[3][2]} 0) (= {disc(ex, ev)} {SE}))")
+    c = a.discharge("loader/load/no-event-requested-after-stream-end", ex, bad,
+                    f"Loader::load, two events of symbolic kind ({nnext} event requests over all paths): after the stream-end event no further event is "
+                    "requested from libyaml (which would answer NO_EVENT, a kind the event conversion panics on): a stream without any document is an error")
+    if c:
+        c["replay"] = replay_no_document(a)
+        c["reproduced"] = c["replay"].get("reproduced", False)
+        a.candidates.append(c)
+
+
+def replay_no_document(a):
+    """data / parameter / payload documents that hold no YAML document at all: a diagnostic and an error exit, never a crash"""
+    import os, shutil, subprocess, tempfile
+    exe = a.cli()
+    if not exe:
+        return {"reproduced": False, "note": "native build failed"}
+    d = tempfile.mkdtemp(prefix="cfnverif_replay_")
+    out = []
+    try:
+        open(os.path.join(d, "r.guard"), "w").write("rule r { a exists }\n")
+        open(os.path.join(d, "ok.json"), "w").write('{"a": 1}\n')
+        docs = {"comment only": b"# only a comment\n", "two comments": b"# a\n  # b\n", "byte order mark only": b"\xef\xbb\xbf", "BOM and comment": b"\xef\xbb\xbf# c\n",
+                "comment after blank lines": b"\n\n# c\n", "a real document": b"a: 1\n"}
+        for label, body in docs.items():
+            f = os.path.join(d, "w.yaml")
+            open(f, "wb").write(body)
+            for how, cmd in (("data file", [exe, "validate", "-r", os.path.join(d, "r.guard"), "-d", f, "--show-summary", "none"]),
+                             ("data file, structured", [exe, "validate", "-r", os.path.join(d, "r.guard"), "-d", f, "--structured", "-o", "json", "--show-summary", "none"]),
+                             ("input parameters", [exe, "validate", "-r", os.path.join(d, "r.guard"), "-d", os.path.join(d, "ok.json"), "-i", f, "--show-summary", "none"])):
+                pr = subprocess.run(cmd, capture_output=True, timeout=60)
+                crashed = pr.returncode == 101 or b"panicked" in pr.stderr
+                good_doc = label == "a real document"
+                if crashed or (not good_doc and pr.returncode in (0, 19) and how != "input parameters"):
+                    out.append({"document": label, "given_as": how, "exit": pr.returncode, "crashed": crashed, "stderr": pr.stderr.decode("utf-8", "replace")[-160:]})
+        return {"reproduced": bool(out), "mismatches": out[:5]}
+    finally:
+        shutil.rmtree(d, ignore_errors=True)
+
+
 def scalar_bytes_wiring(a):
     """C11 (validate's libyaml loader vs the serde loaders of `test` / the library): the bytes of a scalar event are EXACTLY the buffer
     libyaml reports - `from_raw_parts(event.data.scalar.value, event.data.scalar.length)`, pointer and length of the same union member -
@@ -667,4 +735,4 @@ def replay_embedded_nul(a):
         shutil.rmtree(d, ignore_errors=True)
 
 
-SITES = {"C11": [scalar_typing, type_ref, short_form_tables, serde_number_typing, short_form_loader_agreement, scalar_bytes_wiring], "C16": [serde_number_typing, short_form_loader_agreement], "C10": [scalar_typing]}
+SITES = {"C11": [scalar_typing, type_ref, short_form_tables, serde_number_typing, short_form_loader_agreement, scalar_bytes_wiring], "C16": [serde_number_typing, short_form_loader_agreement], "C10": [scalar_typing], "C08": [loader_stops_at_stream_end]}
